@@ -25,6 +25,12 @@ def main():
             ok = False
             print("setup: miri build failed", crate, str(e)[:2000])
     try:
+        t = common.cargo_build(os.path.join(common.VERIF, "expander"), "expander")
+        print("built expander")
+    except common.Inconclusive as e:
+        ok = False
+        print("setup: expander build failed", str(e)[:1500])
+    try:
         import setup_more
         ok = setup_more.main() and ok
     except ImportError:
